@@ -55,6 +55,7 @@ type av struct {
 	lo    int // slice window
 	hi    int
 	tup   []av
+	emptyStr bool // bytes: the constant empty string
 }
 
 type acfg struct {
@@ -67,10 +68,10 @@ func (it *ainterp) prefixOf(pre, s av) (bool, bool) {
 	if it.cfg.pfx == nil || pre.k != akBytes || s.k != akBytes {
 		return false, false
 	}
-	if pre.isNil {
+	if pre.isNil || pre.emptyStr {
 		return true, true
 	}
-	if s.isNil {
+	if s.isNil || s.emptyStr {
 		return it.rankOf(pre) == 0, true
 	}
 	return it.cfg.pfx[pre.sym][s.sym], true
@@ -91,7 +92,7 @@ func (it *ainterp) fail(format string, a ...any) {
 }
 
 func (it *ainterp) rankOf(v av) int {
-	if v.isNil {
+	if v.isNil || v.emptyStr {
 		return 0
 	}
 	return it.cfg.rank[v.sym]
@@ -156,6 +157,9 @@ func (it *ainterp) call(fn *ssa.Function, args []av, depth int) []av {
 			}
 			if iv, ok := constInt(c); ok {
 				return av{k: akInt, i: iv}
+			}
+			if sv, ok := constString(c); ok && sv == "" {
+				return av{k: akBytes, emptyStr: true}
 			}
 			return av{k: akUnknown}
 		case *ssa.Global, *ssa.Function, *ssa.Builtin:
@@ -290,6 +294,47 @@ func (it *ainterp) call(fn *ssa.Function, args []av, depth int) []av {
 					it.fail("slice of unsupported value in %s", fn.Name())
 					return nil
 				}
+			case *ssa.TypeAssert:
+				v := val(x.X)
+				match := false
+				if v.k == akPtr && v.obj != nil && v.obj.name != "" {
+					if n := namedOf(x.AssertedType); n != nil && n.Obj().Name() == v.obj.name {
+						if _, isPtr := x.AssertedType.(*types.Pointer); isPtr {
+							match = true
+						}
+					}
+				} else if !(v.k == akPtr && v.isNil) {
+					it.fail("type assertion on a value without an abstract dynamic type in %s (%s)", fn.Name(), it.p.InstrPos(x))
+					return nil
+				}
+				if x.CommaOk {
+					if match {
+						env[x] = av{k: akTuple, tup: []av{v, {k: akBool, b: true}}}
+					} else {
+						env[x] = av{k: akTuple, tup: []av{{k: akPtr, isNil: true}, {k: akBool, b: false}}}
+					}
+				} else {
+					if !match {
+						it.fail("failing type assertion in %s (%s)", fn.Name(), it.p.InstrPos(x))
+						return nil
+					}
+					env[x] = v
+				}
+			case *ssa.MakeSlice:
+				ln := val(x.Len)
+				if ln.k != akInt {
+					it.fail("make with a non-constant length in %s", fn.Name())
+					return nil
+				}
+				o := &aobj{}
+				if sl, ok := x.Type().Underlying().(*types.Slice); ok {
+					for i := int64(0); i < ln.i; i++ {
+						o.elems = append(o.elems, zeroOf(sl.Elem()))
+					}
+				}
+				env[x] = av{k: akSlice, obj: o, lo: 0, hi: len(o.elems)}
+			case *ssa.ChangeInterface:
+				env[x] = val(x.X)
 			case *ssa.MakeInterface:
 				env[x] = val(x.X)
 			case *ssa.ChangeType:
@@ -1056,6 +1101,13 @@ func relGroups(n int, admit func(rep []string) bool) (groups []*relCfg, probes m
 				c = c*12 + uint64(relPair[idx[i]][idx[j]])
 			}
 		}
+		// the empty string is distinguishable on its own (tests against "", nil-like behaviour)
+		for i := 0; i < m; i++ {
+			c *= 2
+			if relUniverse[idx[i]] == "" {
+				c++
+			}
+		}
 		return c
 	}
 	var rec func(i int)
@@ -1585,4 +1637,253 @@ func relGroupsU(n int, admit func(rep []string) bool, small bool) ([]*relCfg, ma
 	relPair = buildRelPair(u)
 	defer func() { relUniverse, relPair = saveU, saveP }()
 	return relGroups(n, admit)
+}
+
+// bothNilRange: the abstract *ScanType is a RANGE whose two bounds are nil. No function of the
+// algebra may produce it: the domains of RANGEALG / PREFIXALG / SCANALG leave it out as an
+// operand, which is only justified if it never arises (closed domain).
+func bothNilRange(v av, sc map[string]int64) bool {
+	if v.k != akPtr || v.obj == nil || len(v.obj.elems) < 2 || v.obj.elems[0].i != sc["RANGE"] {
+		return false
+	}
+	keys := v.obj.elems[1]
+	if keys.k != akSlice || keys.obj == nil || keys.hi-keys.lo != 2 {
+		return false
+	}
+	ks := keys.obj.elems[keys.lo:keys.hi]
+	return ks[0].isNil && ks[1].isNil
+}
+
+// ---------------- ATOMALG ----------------
+//
+// The atom layer of the scan-range optimizer: optimizeExpr applied to a single comparison
+// node. The operands are abstract AST nodes (`key`, `value`, a string literal with a symbolic
+// text, some other expression); the handlers inspect them only through type switches, the
+// Field constant and the literal's bytes, so the result is a function of (operator, operand
+// shapes, order/prefix structure of the literals) - a finite domain, enumerated completely,
+// with the literal on either side of the operator.
+
+func init() {
+	register("ATOMALG", "atom layer of the scan-range optimizer, decided for every operator x operand shape (key, value, string literal, other expression; literal on either side; IN lists and BETWEEN pairs of literals and non-literals) over all order/prefix structures of the literals plus a probe key: the region contains every key on which the atom is true under the executor's semantics, and everything when the atom's truth does not depend on the key alone [sound, C02]; for key-pinning atoms the region contains nothing outside the pinned set (equality and IN: exactly the listed keys as point reads; unsatisfiable: no read) [tight, C18]; no atom yields a range open on both sides [closed]", ruleAtomAlg)
+}
+
+func (p *Prog) mkNode(tname string, set map[string]av) av {
+	n := p.Named(tname)
+	o := &aobj{name: tname}
+	if n != nil {
+		if st, ok := n.Underlying().(*types.Struct); ok {
+			for i := 0; i < st.NumFields(); i++ {
+				f := st.Field(i)
+				v, ok := set[f.Name()]
+				if !ok {
+					v = zeroOf(f.Type())
+					if _, isI := f.Type().Underlying().(*types.Interface); isI {
+						v = av{k: akPtr, isNil: true}
+					}
+					if b, isB := f.Type().Underlying().(*types.Basic); isB && b.Info()&types.IsString != 0 {
+						v = av{k: akBytes, emptyStr: true}
+					}
+				}
+				o.elems = append(o.elems, v)
+			}
+		}
+	}
+	return av{k: akPtr, obj: o, off: -1}
+}
+
+func ruleAtomAlg(p *Prog, r *Result) {
+	sc, missing := p.scanConsts()
+	if len(missing) > 0 {
+		r.undecided("anchor: scan kind constants %v not found", missing)
+		return
+	}
+	fn := p.MethodByName("FilterOptimizer", "optimizeExpr")
+	if fn == nil {
+		r.undecided("anchor: (*FilterOptimizer).optimizeExpr not found")
+		return
+	}
+	ops := p.typedConsts("Operator")
+	keyKW, ok1 := p.constOf("KeyKW")
+	valKW, ok2 := p.constOf("ValueKW")
+	if !ok1 || !ok2 || len(ops) < 15 {
+		r.undecided("anchor: KeyKW/ValueKW/Operator constants not found")
+		return
+	}
+	recv := av{k: akPtr, obj: &aobj{elems: []av{{k: akUnknown}, {k: akUnknown}, {k: akUnknown}}}, off: -1}
+	// operand shapes: K key, V value, S literal (next symbol), X other expression; L:.. a list
+	type shapeT struct {
+		desc        string
+		left, right string
+	}
+	var shapes []shapeT
+	for _, l := range []string{"K", "V", "S", "X"} {
+		for _, rr := range []string{"K", "V", "S", "X", "L:S", "L:SS", "L:SX", "L:XS", "L:SV"} {
+			shapes = append(shapes, shapeT{l + " op " + rr, l, rr})
+		}
+	}
+	var opVals []int64
+	for v := range ops {
+		opVals = append(opVals, v)
+	}
+	sort.Slice(opVals, func(i, j int) bool { return opVals[i] < opVals[j] })
+	var unsound, loose, errs, open2 []string
+	n := 0
+	for _, ov := range opVals {
+		on := ops[ov]
+		switch on {
+		case "And", "Or", "KWAnd", "KWOr", "Not":
+			continue // combinators: SCANALG
+		}
+		for _, sh := range shapes {
+			nsym := strings.Count(sh.left, "S") + strings.Count(sh.right, "S")
+			groups, probes := relGroupsU(nsym, func([]string) bool { return true }, false)
+			for _, g := range groups {
+				n++
+				it := &ainterp{p: p, cfg: &acfg{rank: g.rank, pfx: g.pfx}}
+				next := 0
+				var lits []int
+				mk := func(code byte) av {
+					switch code {
+					case 'K':
+						return p.mkNode("FieldExpr", map[string]av{"Field": {k: akInt, i: keyKW}})
+					case 'V':
+						return p.mkNode("FieldExpr", map[string]av{"Field": {k: akInt, i: valKW}})
+					case 'S':
+						i := next
+						next++
+						lits = append(lits, i)
+						return p.mkNode("StringExpr", map[string]av{"Data": {k: akBytes, sym: i}})
+					}
+					return p.mkNode("FunctionCallExpr", nil)
+				}
+				left := mk(sh.left[0])
+				var right av
+				listCodes := ""
+				if strings.HasPrefix(sh.right, "L:") {
+					listCodes = sh.right[2:]
+					var elems []av
+					for i := 0; i < len(listCodes); i++ {
+						elems = append(elems, mk(listCodes[i]))
+					}
+					right = p.mkNode("ListExpr", map[string]av{"List": {k: akSlice, obj: &aobj{elems: elems}, lo: 0, hi: len(elems)}})
+				} else {
+					right = mk(sh.right[0])
+				}
+				node := p.mkNode("BinaryOpExpr", map[string]av{"Op": {k: akInt, i: ov}, "Left": left, "Right": right})
+				res := it.call(fn, []av{recv, node}, 0)
+				names := make([]string, nsym)
+				for i := range names {
+					names[i] = fmt.Sprintf("s%d", i+1)
+				}
+				desc := fmt.Sprintf("%s [%s] %s", on, sh.desc, showRel(names, g, make([]bool, nsym)))
+				if it.err != "" || len(res) != 1 {
+					errs = append(errs, desc+": "+it.err)
+					continue
+				}
+				if bothNilRange(res[0], sc) {
+					open2 = append(open2, desc)
+				}
+				allLits := listCodes != "" && strings.Trim(listCodes, "S") == ""
+				// semantics of the atom for a probe key: known (a function of the key alone), its truth, and
+				// whether the key lies in the region the atom pins (boundary included)
+				sem := func(c *relCfg, k int) (known, truth, pinned bool) {
+					rk := func(i int) int { return c.rank[i] }
+					cmp := func(a, b int) (bool, bool) {
+						switch on {
+						case "Eq":
+							return a == b, a == b
+						case "NotEq":
+							return a != b, true
+						case "Gt":
+							return a > b, a >= b
+						case "Gte":
+							return a >= b, a >= b
+						case "Lt":
+							return a < b, a <= b
+						case "Lte":
+							return a <= b, a <= b
+						}
+						return false, false
+					}
+					switch on {
+					case "Eq", "NotEq", "Gt", "Gte", "Lt", "Lte":
+						if sh.left == "K" && sh.right == "S" {
+							t, pn := cmp(rk(k), rk(lits[0]))
+							return true, t, pn
+						}
+						if sh.left == "S" && sh.right == "K" {
+							t, pn := cmp(rk(lits[0]), rk(k))
+							return true, t, pn
+						}
+					case "PrefixMatch":
+						if sh.left == "K" && sh.right == "S" {
+							t := c.pfx[lits[0]][k]
+							return true, t, t
+						}
+						if sh.left == "S" && sh.right == "K" {
+							// 'abc' ^= key: true when the key is a prefix of the literal; not a key-pinning form
+							// (C18 lists literal prefixes of the key), nothing is demanded beyond soundness
+							return true, c.pfx[k][lits[0]], true
+						}
+					case "In":
+						if sh.left == "K" && allLits {
+							t := false
+							for _, li := range lits {
+								if rk(li) == rk(k) {
+									t = true
+								}
+							}
+							return true, t, t
+						}
+					case "Between":
+						if sh.left == "K" && listCodes == "SS" {
+							t := rk(lits[0]) <= rk(k) && rk(k) <= rk(lits[1])
+							return true, t, t
+						}
+					}
+					return false, false, false
+				}
+				bad, extra := "", ""
+				ill := false
+				for _, pc := range probes[g.sig(nsym)] {
+					inRes, ok := memberOfScan(pc, res[0], sc, nsym)
+					if !ok {
+						ill = true
+						break
+					}
+					known, truth, pinned := sem(pc, nsym)
+					if (!known || truth) && !inRes && bad == "" {
+						bad = fmt.Sprintf("key %q", pc.rep[nsym])
+					}
+					if known && !pinned && inRes && extra == "" {
+						extra = fmt.Sprintf("key %q", pc.rep[nsym])
+					}
+				}
+				kind, _, _ := it.decodeScanKind(res[0], sc)
+				if ill {
+					errs = append(errs, desc+": result "+kind+" is ill-formed")
+					continue
+				}
+				if bad != "" {
+					unsound = append(unsound, fmt.Sprintf("%s -> %s loses %s", desc, it.showScanRep(res[0], kind, g), bad))
+				}
+				if extra != "" && on != "NotEq" {
+					loose = append(loose, fmt.Sprintf("%s -> %s reads %s outside the pinned region", desc, it.showScanRep(res[0], kind, g), extra))
+				}
+				if (on == "Eq" && ((sh.left == "K" && sh.right == "S") || (sh.left == "S" && sh.right == "K"))) || (on == "In" && sh.left == "K" && allLits) {
+					if kind != "MGET" {
+						loose = append(loose, fmt.Sprintf("%s -> %s: equality / IN over literals must use point reads", desc, kind))
+					}
+				}
+			}
+		}
+	}
+	sort.Strings(unsound)
+	sort.Strings(loose)
+	r.note("atom_configurations", n)
+	r.add(len(errs) == 0, "optimizeExpr|interpretable", p.Pos(fn.Pos()), fmt.Sprintf("%d atom configurations evaluated; %d outside the abstract domain %v", n, len(errs), head(errs, 3)))
+	r.add(len(unsound) == 0, "optimizeExpr|sound", p.Pos(fn.Pos()), fmt.Sprintf("the region of an atom contains every key on which the atom can be true, in all %d configurations; %d counter-configurations %v", n, len(unsound), head(unsound, 4)))
+	r.add(len(loose) == 0, "optimizeExpr|tight", p.Pos(fn.Pos()), fmt.Sprintf("key-pinning atoms read nothing outside the pinned region and use point reads for equality and IN, in all %d configurations; %d counter-configurations %v", n, len(loose), head(loose, 4)))
+	r.add(len(open2) == 0, "optimizeExpr|closed", p.Pos(fn.Pos()), fmt.Sprintf("no atom yields a range open on both sides (the algebra's domain leaves it out); %d counter-configurations %v", len(open2), head(open2, 3)))
+	r.floor("atom configurations evaluated", n, 500)
 }
